@@ -50,7 +50,7 @@ func TestMain(m *testing.M) {
 	vcore.Init("C19", "exploration",
 		"exhaustive over flag words: all 2^16 apply-action values in 1- and 2-octet form (plus 3-octet and empty inputs), reporting triggers all 2^16 in 2-octet form and "+
 			"2^18 structured + random (quick) / all 2^24 (thorough) in 3-octet form, every usage-report-trigger single bit, all pairs and random words, all 64 volume-measurement subsets x MNOP; "+
-			"oracle = octet/bit table transcribed from TS 29.244 8.2.26/8.2.19/8.2.41/8.2.13, cross-checked at start-up against go-pfcp's independent Has*() accessors. "+
+			"oracle = octet/bit table transcribed from TS 29.244 8.2.26/8.2.19/8.2.41/8.2.13, cross-checked at start-up against go-pfcp's independent Has*() accessors; every Apply Action / Reporting Triggers value is decoded from a slice of its own and from inside a longer buffer (0xff octets behind it, as a value inside a received message has the next IE behind it), with equal results. "+
 			"Causes are also followed along the delivery path: REPORT netlink messages with 1-8 usage reports, each with its own single cause (every ordered pair exhaustively, longer messages at random, one or several sessions), multicast by the simulated kernel to the real listener of the real driver; "+
 			"each report must reach the report handler with the usage-report trigger of its own cause and no other. "+
 			"non-trivial = value with >= 2 bits set spread over >= 2 octets (or, for the one-octet volume flags, >= 2 bits), or a REPORT message with >= 2 different causes; distinct by (IE kind, octet form, value)",
@@ -161,6 +161,16 @@ func callBool(obj any, name string) bool {
 	return m.Call(nil)[0].Bool()
 }
 
+// inMessage returns the same octets as a sub-slice of a longer buffer, the way go-pfcp hands out IE values.
+func inMessage(b []byte) []byte {
+	buf := make([]byte, len(b)+4)
+	copy(buf, b)
+	for i := len(b); i < len(buf); i++ {
+		buf[i] = 0xff
+	}
+	return buf[:len(b)]
+}
+
 func check(c Case) *vcore.Violation {
 	switch c.Kind {
 	case "apply":
@@ -176,6 +186,11 @@ func check(c Case) *vcore.Violation {
 		}
 		if err != nil {
 			return vcore.Violatef("apply-reject", "Unmarshal(%x): %v", c.Bytes, err)
+		}
+		// as it comes off the wire the value is a sub-slice of the datagram (go-pfcp does not copy): the next IE's header lies behind it
+		var am report.ApplyAction
+		if err := am.Unmarshal(inMessage(c.Bytes)); err != nil || am.Flags != a.Flags {
+			return vcore.Violatef("apply-in-message", "ApplyAction %x decoded from inside a message (octets ff ff ff ff follow in the same buffer): Flags=%#x err=%v; decoded from a slice of its own: %#x", c.Bytes, am.Flags, err, a.Flags)
 		}
 		for _, b := range applyActionBits {
 			if got, w := callBool(&a, b.name), want(applyActionBits, c.Bytes, b.name); got != w {
@@ -203,6 +218,10 @@ func check(c Case) *vcore.Violation {
 		}
 		if err != nil {
 			return vcore.Violatef("rpt-reject", "Unmarshal(%x): %v", c.Bytes, err)
+		}
+		var rm report.ReportingTrigger
+		if err := rm.Unmarshal(inMessage(c.Bytes)); err != nil || rm.Flags != r.Flags {
+			return vcore.Violatef("rpt-in-message", "ReportingTriggers %x decoded from inside a message (octets ff ff ff ff follow in the same buffer): Flags=%#x err=%v; decoded from a slice of its own: %#x", c.Bytes, rm.Flags, err, r.Flags)
 		}
 		for _, b := range reportingTriggerBits {
 			if got, w := callBool(&r, b.name), want(reportingTriggerBits, c.Bytes, b.name); got != w {
